@@ -450,31 +450,88 @@ def layer_io_cells(tier):
     cells = []
     for L, nm, dims in (("1", "strided", (1, 3)), ("2", "morton", (2, 3)), ("3", "hilbert", (2,))):
         for n in dims:
-            if tier == "quick" and nm != "hilbert" and n != 3:
+            if tier == "quick" and not (nm == "strided" and n == 3):
                 continue
             d = {"DIMS_IN": n, "LAYER": L}
             un = "layer_io@L=" + L
-            cells.append(Cell("io.%s.ndsize.N%d" % (nm, n), un, "h_read_binary_ndsize", defines=d, enforce="read_binary_ndsize", closes_loops="loop-free"))
+            cells.append(Cell("io.%s.ndsize.N%d" % (nm, n), un, "h_read_binary_ndsize", defines=d, enforce="read_binary_ndsize", closes_loops="loop-free",
+                              backends=(("cadical", 900), ("sat", 600))))
             for fl in ("debug", "ndebug"):
                 cells.append(Cell("io.%s.read.N%d.%s" % (nm, n, fl), un, "h_layer_read_binary", defines=d, flavour=fl, enforce="layer_read_binary",
                                   replace=["read_io_header", "read_io_footer", "read_binary_ndsize"], closes_loops="loop-free",
-                                  backends=(("sat", 600), ("cadical", 600))))
+                                  backends=(("cadical", 1500),), split=6))
             cells.append(Cell("io.%s.write.N%d" % (nm, n), un, "h_layer_write_binary", defines=d, enforce="layer_write_binary",
-                              replace=["write_io_header", "write_io_footer"], closes_loops="loop-free", backends=(("sat", 600), ("cadical", 600))))
-            cells.append(Cell("io.%s.roundtrip.N%d" % (nm, n), un, "h_layer_roundtrip", defines=d,
-                              replace=["layer_write_binary", "layer_read_binary"], unwind=5, closes_loops="harness loops over N", backends=(("sat", 600), ("cadical", 600))))
+                              replace=["write_io_header", "write_io_footer"], closes_loops="loop-free", backends=(("cadical", 1500),), split=6))
+            if tier == "thorough":
+                cells.append(Cell("io.%s.roundtrip.N%d" % (nm, n), un, "h_layer_roundtrip", defines=d, optional=True,
+                                  replace=["layer_write_binary", "layer_read_binary"], unwind=5, closes_loops="harness loops over N", backends=(("cadical", 2400),),
+                                  note="round-trip lemma over the two contracts (recorded attempt: needs ~8 min and close to the 10 GB memory cap; decided when run alone)"))
+    return cells
+
+
+def thin_io_cells(tier, which=("1", "2", "3", "4", "5")):
+    cells = []
+    names = {"1": "linear", "2": "nn", "3": "shuffle"}
+    for T in which:
+        un = "thin_io@T=" + T
+        d = {"THIN": T}
+        if T in names:
+            for fl in ("debug", "ndebug"):
+                cells.append(Cell("io.%s.read.%s" % (names[T], fl), un, "h_thin_read_binary", defines=d, flavour=fl, enforce="thin_read_binary", closes_loops="loop-free"))
+            cells.append(Cell("io.%s.write" % names[T], un, "h_thin_write_binary", defines=d, enforce="thin_write_binary", closes_loops="loop-free"))
+        elif T == "4":
+            for fl in ("debug", "ndebug"):
+                cells.append(Cell("io.identity.read.%s" % fl, un, "h_ident_read_binary", defines=d, flavour=fl, enforce="ident_read_binary",
+                                  replace=["read_io_header", "read_io_footer"], closes_loops="loop-free", backends=(("cadical", 900), ("sat", 600))))
+            cells.append(Cell("io.identity.write", un, "h_ident_write_binary", defines=d, enforce="ident_write_binary",
+                              closes_loops="loop-free", backends=(("cadical", 900), ("sat", 600)),
+                              note="write_io_header/footer bodies inlined here (their own contracts are enforced in io.write_io_*): replacing both calls exhausted the solver's memory"))
+        elif T == "5":
+            for fl in ("debug", "ndebug"):
+                cells.append(Cell("io.field.load.%s" % fl, un, "h_field_load", defines=d, flavour=fl, enforce="field_load",
+                                  replace=["read_io_header", "read_io_footer"], closes_loops="loop-free", backends=(("cadical", 1500),), split=6))
+            cells.append(Cell("io.field.dump", un, "h_field_dump", defines=d, enforce="field_dump",
+                              replace=["write_io_header", "write_io_footer"], closes_loops="loop-free", backends=(("cadical", 1500),), split=6))
     return cells
 
 
 def cells_C06(tier, consts):
-    return binio_cells(tier) + array_io_cells(tier, ["read", "write"]) + layer_io_cells(tier)
+    cells = binio_cells(tier) + array_io_cells(tier, ["read", "write"]) + layer_io_cells(tier) + thin_io_cells(tier)
+    if tier == "quick":
+        keep = lambda c: (not c.id.startswith(("io.array.read.M1.double", "io.nn.", "io.shuffle."))
+                          and not (c.id.startswith(("io.strided.read", "io.field.load", "io.identity.read", "io.linear.read")) and c.id.endswith(".debug")))
+        cells = [c for c in cells if keep(c)]
+    return cells
+
+
+def cells_C07(tier, consts):
+    cells = [c for c in binio_cells(tier) if "write_io" in c.id or "constants" in c.id]
+    cells += array_io_cells(tier, ["read"])          # both on-disk widths are decided inside every reader cell
+    cells += thin_io_cells(tier, which=("1", "2"))   # interpolators write no bytes of their own
+    return cells
 
 
 PROPS["C06"] = {
-    "claimed": False,
-    "level_text": "", "level_note": "",
+    "level_text": "writers and readers proved against the golden byte grammar of the pinned revision, modularly: header/footer primitives; the array backend's payload (element loops closed by loop contracts, symbolic count); the framing of strided / morton / hilbert (tag, extents, inner image, footer), identity, the pass-through layers and field::dump / field(istream&) -- each against an ABSTRACT inner-backend serialiser; per-layer round-trip lemma over the two contracts: what write_binary emits, read_binary accepts, consuming exactly the image and returning the same configuration and inner value; writers are functions of configuration and payload only (re-dump gives the same bytes)",
+    "level_note": "the stack-level statement is the structural induction over layers (meta-level, unchecked; the inner backend's own round trip is the induction hypothesis); clamp / backup / affine / constant / covariant_cast / dereference serialisers are NOT under contract (constant, cast and dereference do not compile when instantiated: D7/D8, recorded); std::iostream modelled by the ghost stream; stream limited to 2^40 bytes, array to 2^32 elements",
+    "design_ref": "DESIGN.md section 5 (C06/C07/C08)",
     "cells": cells_C06, "consts": True,
-    "explanation": "", "trusted_base": [], "assumptions": [], "not_covered": [],
+    "explanation": "serialisers against the golden grammar, modular in the inner backend",
+    "trusted_base": ["ghost stream model (stubs/stream.h)", "abstract inner-backend serialiser (stubs/backend_io.h)"],
+    "assumptions": ["stack = structural induction over layers (meta-lemma)", "output never fails (no I/O errors modelled)"],
+    "not_covered": ["clamp, backup, affine, constant, covariant_cast, dereference serialisers", "cuda_device_array"],
+}
+
+
+PROPS["C07"] = {
+    "level_text": "array::read_binary proved for BOTH on-disk scalar widths against either in-memory type in one cell (stored float -> double: exact; stored double -> float: the cast's IEEE round-to-nearest), count and footer unchanged; linear and nearest_neighbour serialisers proved to write/read exactly the inner backend's bytes (no tag, no footprint), hence files are interchangeable between interpolation methods; magic words, tags and the header/payload/footer grammar are fixed in the contracts from the pinned revision, so a consistent change of writer and reader fails the writer's postcondition",
+    "level_note": "round-to-nearest of the double->float cast is trusted compiler/hardware semantics (CBMC's model); committed golden files are a testing artefact and not used; layer framing grammar for the remaining layers is under C06",
+    "design_ref": "DESIGN.md section 5 (C06/C07/C08)",
+    "cells": cells_C07, "consts": True,
+    "explanation": "width portability, interpolator pass-through, golden grammar",
+    "trusted_base": ["ghost stream model (stubs/stream.h)", "CBMC's float<->double conversion model"],
+    "assumptions": ["little-endian host"],
+    "not_covered": ["revisions other than the pinned one"],
 }
 
 
